@@ -275,4 +275,12 @@ theorem C02_source_stored {ρ} (s : Segment ρ) (topLevel : Bool) (v : ρ) (o : 
   cases s.quant <;> cases topLevel <;>
     simp [Generated.qrvOnce, Generated.qrvNTimes, Generated.qrvAtLeast, Generated.qrvClauseViaOnce, Generated.qrvDropSingleUse]
 
+/-- `find_responder_by_call_index` as re-translated from `src/call_pattern.rs` (empty slice: none; `Ok(i)`: responder `i`;
+    `Err(i)`: responder `i - 1`, over the model of std's binary search) is the model's `findKey` -/
+theorem C02_source_find_responder (keys : Array Nat) (k : Nat) : Generated.findResponderSrc keys k = findKey keys k := by
+  unfold Generated.findResponderSrc
+  first
+    | rfl
+    | (unfold findKey; split <;> simp_all)
+
 end Unimock
